@@ -33,10 +33,10 @@ const (
 )
 
 type COp struct {
-	Op  string `json:"op"` // add | reply | request | get | wait | sleep-short | sleep-expire | flood
+	Op  string `json:"op"` // add | reply | request | get | wait | sleep-short | sleep-expire | flood | train | train-udp
 	Key int    `json:"key,omitempty"`
 	Ver int    `json:"ver,omitempty"`
-	N   int    `json:"n,omitempty"` // flood: number of fresh neighbours; wait: >0 = flood this many while waiting
+	N   int    `json:"n,omitempty"` // flood: number of fresh neighbours; wait: >0 = flood this many while waiting; train: one lookup every age/N
 }
 
 type CacheCase struct {
@@ -138,13 +138,44 @@ func (r *cacheRun) doAdd(i int, op COp) *evid.Failure {
 // doGet performs one lookup and judges it. It returns the channel when the
 // lookup has to wait.
 func (r *cacheRun) doGet(i int, k int) (<-chan struct{}, *tcpip.Error, int, *evid.Failure) {
+	return r.doLookup(i, k, nil)
+}
+
+// doLookup is one lookup of k: GetLinkAddress, or (via != nil) an unconnected
+// UDP Write to k, whose answer is the link address the datagram was sent to.
+func (r *cacheRun) doLookup(i int, k int, via *netsim.Sock) (<-chan struct{}, *tcpip.Error, int, *evid.Failure) {
 	before := time.Now()
 	s := r.st(k, before)
 	nBefore := r.e.tap.Len()
-	w := &sleep.Waker{}
+	var w *sleep.Waker
 	r.allocs++
-	la, ch, err := r.e.s.GetLinkAddress(1, tcpip.Address(r.ip(k)), tcpip.Address(r.e.own[0]), r.e.netProto(), w)
+	var la tcpip.LinkAddress
+	var ch <-chan struct{}
+	var err *tcpip.Error
+	if via == nil {
+		w = &sleep.Waker{}
+		la, ch, err = r.e.s.GetLinkAddress(1, tcpip.Address(r.ip(k)), tcpip.Address(r.e.own[0]), r.e.netProto(), w)
+	} else {
+		payload := []byte(fmt.Sprintf("c12-train-%d-%d", i, nBefore))
+		_, ch, err = via.EP.Write(tcpip.SlicePayload(payload), tcpip.WriteOptions{To: &tcpip.FullAddress{Addr: tcpip.Address(r.ip(k)), Port: 9999}})
+		if err == nil {
+			// the datagram went out synchronously: where to?
+			found := false
+			for _, f := range r.e.tap.Trace()[nBefore:] {
+				if p := f.Pkt; p != nil && p.L4Kind == "udp" && bytes.Equal(p.Dst, r.ip(k)) && bytes.Equal(p.Payload, payload) {
+					la, found = f.Remote, true
+				}
+			}
+			if !found {
+				return nil, err, nBefore, evid.Failf("write-without-frame", "op %d: UDP Write to %x returned success but no such datagram is on the tap", i, r.ip(k))
+			}
+		}
+	}
 	after := time.Now()
+	what := "get"
+	if via != nil {
+		what = "UDP Write, i.e. a datagram sent to the link address returned by the lookup for"
+	}
 	wasLastAdd := s.lastIsAdd
 	s.lastIsAdd = false
 	if err == nil {
@@ -155,7 +186,7 @@ func (r *cacheRun) doGet(i int, k int) (<-chan struct{}, *tcpip.Error, int, *evi
 			return nil, err, nBefore, evid.Failf("wrong-mapping", "op %d: get(%x) reports %x, the latest completed add/reply for that address gave %x", i, r.ip(k), []byte(la), s.val)
 		}
 		if old := before.Sub(s.addEnd); old > 3*r.age {
-			return nil, err, nBefore, evid.Failf("reported-after-expiry", "op %d: get(%x) reports %x although the latest add/reply for it completed %v ago (age limit %v)", i, r.ip(k), []byte(la), old, r.age)
+			return nil, err, nBefore, evid.Failf("reported-after-expiry", "op %d: "+what+"(%x) reports %x although the latest add/reply for it completed %v ago (age limit %v)", i, r.ip(k), []byte(la), old, r.age)
 		}
 		r.nt["hit"] = true
 		return nil, nil, nBefore, nil
@@ -185,7 +216,9 @@ func (r *cacheRun) doGet(i int, k int) (<-chan struct{}, *tcpip.Error, int, *evi
 		if ch == nil {
 			return nil, err, nBefore, evid.Failf("no-channel", "op %d: get(%x) = ErrWouldBlock without a notification channel", i, r.ip(k))
 		}
-		s.pend = append(s.pend, pending{ch, w})
+		if w != nil {
+			s.pend = append(s.pend, pending{ch, w})
+		}
 	}
 	return ch, err, nBefore, nil
 }
@@ -247,6 +280,75 @@ func runCacheOnce(c CacheCase) (*evid.Failure, bool) {
 			r.lastLong = time.Now()
 			time.Sleep(3*r.age + r.age/4)
 			r.nt["expiry-sleep"] = true
+		case "train", "train-udp":
+			// Learn k, then look it up again and again at intervals well below
+			// the age limit, across and well beyond its expiry. However often it
+			// is looked up, a lookup later than 3 x age after the (only) add must
+			// not report the mapping (doLookup: reported-after-expiry) and the
+			// first miss after a hit must start a resolution.
+			k := op.Key
+			kind := "add"
+			if op.Ver%2 == 1 {
+				kind = "reply"
+			}
+			if f := r.doAdd(i, COp{Op: kind, Key: k, Ver: op.Ver}); f != nil {
+				return f, false
+			}
+			var via *netsim.Sock
+			if op.Op == "train-udp" {
+				sock, serr := netsim.NewSock(r.e.s, protoUDP, r.e.netProto())
+				if serr != nil {
+					return evid.Failf("harness", "NewSock: %v", serr), false
+				}
+				via = sock
+			}
+			gap := r.age / time.Duration(op.N)
+			prevHit, hits, misses := false, 0, 0
+			beyond := 0
+			for j := 0; beyond < 3 && j < 400; j++ {
+				time.Sleep(gap)
+				old := time.Since(r.keys[k].addEnd)
+				_, err, nBefore, f := r.doLookup(i, k, via)
+				if f != nil {
+					if via != nil {
+						via.EP.Close()
+					}
+					f.Msg = fmt.Sprintf("lookup #%d of a train (one every %v, %d hits so far): %s", j+1, gap, hits, f.Msg)
+					return f, false
+				}
+				if err == nil {
+					hits++
+					prevHit = true
+				} else {
+					misses++
+					if err == tcpip.ErrWouldBlock {
+						if prevHit {
+							if _, _, ok := r.e.tap.Scan(nBefore, 5*time.Second, func(f netsim.Frame) bool {
+								ri, ok := r.e.asRequest(f)
+								return ok && bytes.Equal(ri.target, r.ip(k))
+							}); !ok {
+								if via != nil {
+									via.EP.Close()
+								}
+								return evid.Failf("deadline:no-request", "op %d: lookup #%d of a train for %x missed right after a hit, but no request for it appeared within 5 s\n%s", i, j+1, r.ip(k), traceString(r.e.tap.Trace(), r.t0)), true
+							}
+							r.nt["train-miss-starts-resolution"] = true
+						}
+						r.keys[k].resolving = true
+					}
+					prevHit = false
+				}
+				if old > 3*r.age {
+					beyond++
+				}
+			}
+			if via != nil {
+				via.EP.Close()
+				r.nt["hit-train-udp"] = true
+			}
+			if hits >= 2 && misses >= 1 {
+				r.nt["hit-train-across-expiry"] = true
+			}
 		case "get":
 			k := op.Key
 			s0 := r.keys[k]
@@ -365,7 +467,7 @@ func runCacheOnce(c CacheCase) (*evid.Failure, bool) {
 	nontrivial := false
 	for k := range r.nt {
 		evid.Label("cache:" + k)
-		if k == "overwrite" || k == "overflow" || k == "expiry" || k == "retries" || k == "evicted-while-waiting" {
+		if k == "overwrite" || k == "overflow" || k == "expiry" || k == "retries" || k == "evicted-while-waiting" || k == "hit-train-across-expiry" {
 			nontrivial = true
 		}
 	}
@@ -389,7 +491,20 @@ func genCacheOps(rt *rapid.T, n int, allowSleep bool) []COp {
 	var ops []COp
 	flooded := 0
 	sleeps := 0
+	trainAt := -1
+	if allowSleep && rapid.IntRange(0, 2).Draw(rt, "train") != 0 {
+		trainAt = rapid.IntRange(0, n-1).Draw(rt, "train_at")
+	}
 	for i := 0; i < n; i++ {
+		if i == trainAt {
+			ops = append(ops, COp{
+				Op:  rapid.SampledFrom([]string{"train", "train", "train-udp"}).Draw(rt, "train_kind"),
+				Key: rapid.IntRange(0, 3).Draw(rt, "key"),
+				Ver: rapid.IntRange(0, 2).Draw(rt, "ver"),
+				N:   rapid.SampledFrom([]int{4, 4, 6, 3}).Draw(rt, "train_div"), // one lookup every age/N
+			})
+			continue
+		}
 		kind := rapid.SampledFrom([]string{"add", "add", "reply", "request", "get", "get", "get", "get", "wait", "sleep-short", "sleep-expire", "flood", "flood-get"}).Draw(rt, "op")
 		op := COp{Op: kind, Key: rapid.IntRange(0, 3).Draw(rt, "key")}
 		switch kind {
